@@ -11,6 +11,8 @@ legs:   M  exhaustive TLC check of the design + its four wrong-design switches (
 import calendar
 import datetime as dt
 import email.utils
+import json
+import os
 import re
 import time
 import urllib.parse
@@ -166,6 +168,8 @@ def parse_links(text):
                'hreflang': [], 'crossorigin': []}
         seen = set()
         for k, v in ps:
+            if v is None and k != 'crossorigin':
+                raise ParseError('link parameter %r has no value' % k)
             if k == 'hreflang':
                 rec['hreflang'].append(v)
                 continue
@@ -329,6 +333,15 @@ NOUA = {'samesite': '', 'domain': '', 'path': ''}
 NOLAW = {'cps': [], 'orig': [], 'ok': True, 'dec': [], 'dtype': '', 'deci': 0, 'link': NOLINK, 'text': ''}
 
 
+_COMMON = ('op', 'err', 'exc', 'res', 'after')
+EVENT_FIELDS = {
+    'get': _COMMON + ('n',), 'set': _COMMON + ('n', 'v'), 'delete': _COMMON + ('n',), 'append': _COMMON + ('n', 'v'),
+    'set_headers': _COMMON + ('items', 'asdict'), 'typed': _COMMON + ('p', 'a', 'law'), 'typed_get': _COMMON + ('p',),
+    'link': _COMMON + ('link', 'law'), 'set_cookie': _COMMON + ('ck', 'ca'),
+    'unset_cookie': _COMMON + ('ck', 'ua', 't0', 't1'),
+}
+
+
 def call(op, **kw):
     c = {'op': op, 'n': NONAME, 'v': '', 'items': [], 'asdict': False, 'p': '', 'a': NOARG, 'link': NOLINK, 'text': '',
          'ck': '', 'ca': NOCA, 'ua': NOUA}
@@ -457,8 +470,8 @@ def _do(resp, c, ev):
             law['why'] = str(ex)
         ev['a'] = a
         ev['law'] = law
-    hs = resp.headers
-    ev['after'] = sorted([k.lower(), v] for k, v in hs.items())
+    if op not in ('get', 'typed_get'):
+        ev['after'] = sorted([k.lower(), v] for k, v in resp.headers.items())
 
 
 def execute(iface, sd, calls, media='application/json'):
@@ -480,13 +493,14 @@ def _execute(iface, sd, calls, media):
         for c in calls:
             ev = dict(c, err=False, exc='', res=[], after=[], law=NOLAW, t0=0, t1=0)
             _do(resp, c, ev)
-            evs.append(ev)
+            # keep what the judge reads for this kind of call (traces are big otherwise)
+            evs.append({k: ev[k] for k in EVENT_FIELDS[c['op']]})
 
     res.fn = script
     drive = drivers.wsgi_call if iface == 'wsgi' else drivers.asgi_call
     r = drive(app, drivers.Req('GET', '/r'))
     emit = {'op': 'emit', 'exc': '', 'plain': [], 'rawnames': [], 'lownames': [], 'lines': [], 'echo': [], 'echo1': [],
-            'now': int(time.time()), 'errors': list(r.errors), 'status': r.status}
+            'now': int(time.time())}
     if r.exc is not None or r.status != 200 or len(evs) != len(calls):
         emit['exc'] = 'app call failed: exc=%r status=%r events=%d/%d' % (r.exc, r.status, len(evs), len(calls))
     else:
@@ -570,9 +584,11 @@ def compare_behaviour(ctx, b, trace, case):
         if g['exc']:
             return 'P:exception', 'step %d %s raised %s' % (i, g['op'], g['exc'])
         if g['err'] != w['err']:
-            return 'P:setcookie-guard', 'step %d %s(%s): raised=%r, spec %r' % (i, g['op'], render(g['n']), g['err'], w['err'])
+            return 'P:setcookie-guard', 'step %d %s: raised=%r, spec %r' % (i, g['op'], g['err'], w['err'])
         if g['res'] != w['res']:
             return 'P:readback', 'step %d %s read %r, spec %r' % (i, g['op'], g['res'], w['res'])
+        if g['op'] in ('get', 'typed_get'):
+            continue
         want = {k: v[0] for k, v in w['map'].items() if v}
         p, d = compare_map(want, {k: v for k, v in g['after']})
         if p:
@@ -598,11 +614,32 @@ def compare_behaviour(ctx, b, trace, case):
         return 'P:asgi-lower', 'ASGI header names %r' % (e['rawnames'],)
     if len(e['lines']) != len(b['raw']) + len(b['jar']):
         return 'P:cookie-lines', '%d Set-Cookie lines, spec %d raw + %d cookies' % (len(e['lines']), len(b['raw']), len(b['jar']))
-    texts = [ln['text'] for ln in e['lines']]
+    rest = list(e['lines'])
     for t in b['raw']:
-        if t not in texts:
-            return 'P:raw-cookies', 'raw cookie %r not among %r' % (t, texts)
-        texts.remove(t)
+        hit = [ln for ln in rest if ln['text'] == t]
+        if not hit:
+            return 'P:raw-cookies', 'raw cookie %r not among %r' % (t, [ln['text'] for ln in rest])
+        rest.remove(hit[0])
+    echo = dict((k, v) for k, v in e['echo'])
+    for j in b['jar']:
+        name, c = j['name'], j['c']
+        lns = [ln for ln in rest if ln['name'] == name]
+        if len(lns) != 1:
+            return 'P:cookie-lines', '%d lines for cookie %r' % (len(lns), name)
+        ln = lns[0]
+        if c['unset']:
+            got = {k: ln[k] for k in ('domain', 'path', 'samesite')}
+            want = {k: c[k] for k in ('domain', 'path', 'samesite')}       # expiry: judged by TLC (needs the clock)
+        else:
+            got = {k: ln[k] for k in ('domain', 'path', 'secure', 'httponly', 'samesite', 'partitioned')}
+            got.update(expires=ln['exp'] if ln['hasexp'] else -1, max_age=ln['maxage'] if ln['hasmaxage'] else None,
+                       other=ln['other'], dup=ln['dup'])
+            want = {k: c[k] for k in ('domain', 'path', 'secure', 'httponly', 'samesite', 'partitioned')}
+            want.update(expires=c['exp'], max_age=c['maxage'] if c['hasmaxage'] else None, other=[], dup=False)
+        if got != want:
+            return 'P:cookie-attrs', 'cookie %r line %r has %r, spec %r' % (name, ln['text'], got, want)
+        if not c['unset'] and echo.get(name) != [c['value']]:
+            return 'P:cookie-echo', 'cookie %r=%r echoed back is read as %r' % (name, c['value'], echo.get(name))
     return None
 
 
@@ -636,24 +673,34 @@ def judge_all(ctx, items, timeout=1500):
             bad.append((trace, case, v))
             rejected.add(i)
     ctx.progress('judge: %d traces, %d rejected under the property' % (len(traces), len(bad)))
+    # which deviations explain a rejected trace: first every single one, then (for the rest) every set
     explained = {}
-    import json
-    import os
-    for off in range(0, len(bad), 1500):
-        part = bad[off:off + 1500]
-        path = os.path.join(ctx.scratch, 'rejected-%d.json' % off)
-        with open(path, 'w') as f:
-            json.dump([t for t, _, _ in part], f)
-        r = ctx.tlc('RespHeadersTrace', 'RespHeadersTraceK.cfg', env={'TRACE_FILE': path}, workers=8, timeout=timeout,
-                    count=False)
-        for tag, fields in r.tuples:
-            if tag == 'VERDICT' and len(fields) >= 4 and (fields[1] == 'ok' or fields[1].startswith('D:')):
-                k = fields[3]
-                cur = explained.get(off + fields[0] - 1)
-                if cur is None or (len(k), k) < (len(cur), cur):
-                    explained[off + fields[0] - 1] = k
-        os.unlink(path)
+    todo = list(range(len(bad)))
+    for cfg in ('RespHeadersTraceK1.cfg', 'RespHeadersTraceK.cfg'):
+        for off in range(0, len(todo), 2000):
+            part = todo[off:off + 2000]
+            path = os.path.join(ctx.scratch, 'rejected-%d.json' % off)
+            with open(path, 'w') as f:
+                json.dump([bad[i][0] for i in part], f)
+            r = ctx.tlc('RespHeadersTrace', cfg, env={'TRACE_FILE': path}, workers=8, timeout=timeout, count=False)
+            for tag, fields in r.tuples:
+                if tag == 'VERDICT' and len(fields) >= 4 and (fields[1] == 'ok' or fields[1].startswith('D:')):
+                    i, k = part[fields[0] - 1], fields[3]
+                    cur = explained.get(i)
+                    if cur is None or (len(k), k) < (len(cur), cur):
+                        explained[i] = k
+            os.unlink(path)
+        todo = [i for i in todo if i not in explained]
+        if not todo:
+            break
     nfail = 0
+    counts = {}
+    for k in explained.values():
+        counts[k] = counts.get(k, 0) + 1
+    if bad:
+        ctx.progress('rejected traces by explaining deviation set: %s; unexplained: %d'
+                     % (dict(sorted(counts.items())), len(bad) - len(explained)))
+        ctx.extra['rejected_by_deviation_set'] = counts
     for i, (trace, case, v) in enumerate(bad):
         clause = v.split('|')[0]
         k = explained.get(i)
@@ -889,7 +936,8 @@ def run(ctx):
                        'expiry instants lie before 2038 (TLC integers)']
 
     # ---- leg M: the design, and the wrong designs ------------------------------------------------
-    r = ctx.tlc('MC_RespHeaders', 'MC_RespHeaders.cfg', coverage=True, workers=8, timeout=600)
+    r = ctx.tlc('MC_RespHeaders', ctx.pick('MC_RespHeaders.cfg', 'MC_RespHeadersT.cfg'), coverage=True, workers=ctx.pick(8, 16),
+                timeout=1500)
     ctx.require_coverage(r, ['XGet', 'XSet', 'XDelete', 'XAppend', 'XSetHeaders', 'XSetTyped', 'XGetTyped', 'XAppendLink',
                              'XSetCookie', 'XUnsetCookie', 'XEmitWsgi', 'XEmitAsgi'])
     ctx.exhaustive = True
@@ -914,7 +962,7 @@ def run(ctx):
             items[k] = (trace, case)
 
     # ---- leg A1: TLC histories replayed on both Response classes ---------------------------------
-    nsim = ctx.pick(300, 6000)
+    nsim = ctx.pick(200, 3000)
     rs = ctx.tlc('MC_RespHeaders', 'MC_RespHeadersSim.cfg', simulate={'num': nsim}, depth=8, seed=ctx.seed + 1, workers=4,
                  timeout=900, count=False)
     behaviours = {digest(b): b for b in rs.json}
@@ -962,7 +1010,7 @@ def run(ctx):
     ctx.progress('leg A2 done: %d encoding cases' % nenc)
 
     # ---- leg B: seeded random histories beyond the bound --------------------------------------------
-    nrand = ctx.pick(4000, 120000)
+    nrand = ctx.pick(2500, 60000)
     rng = ctx.rng
     for i in range(nrand):
         calls = random_history(rng)
@@ -990,3 +1038,39 @@ def replay(ctx, case):
     for e in trace['ev']:
         print({k: v for k, v in e.items() if k in ('op', 'err', 'exc', 'res', 'after', 'law', 'plain', 'lines', 'echo')})
     judge_all(ctx, [(trace, c)])
+
+
+def selftest(ctx):
+    """Binding demonstration for the judge (DESIGN 2.3): one recorded trace is accepted, and each of nine
+    corruptions of it (one field changed / one event dropped) is rejected with the clause it breaks.
+    Run:  PYTHONPATH=/verif python -c "import engine.srcimport, checks.c15 as c; from engine.core import Ctx; c.selftest(Ctx('C15','quick',0))" """
+    import copy
+    calls = [call('set', n={'b': 'x-a', 'c': 1}, v='v1'), call('append', n={'b': 'x-a', 'c': 4}, v='v2'),
+             call('get', n={'b': 'x-a', 'c': 5}), call('append', n={'b': 'set-cookie', 'c': 17}, v='r1=x'),
+             call('set_cookie', ck='sid', ca=dict(NOCA, value='v1')),
+             call('unset_cookie', ck='old', ua={'samesite': 'Lax', 'domain': '', 'path': ''}),
+             call('typed', p='location', a=dict(NOARG, kind='codec', s='/caf\xe9 x')),
+             call('delete', n={'b': 'set-cookie', 'c': 0})]
+    t = execute('asgi', True, calls)
+    muts = [('unchanged', 'ok', lambda m: None),
+            ('get result corrupted', 'P:readback', lambda m: m['ev'][2].__setitem__('res', ['v1'])),
+            ('append event dropped', 'P:readback', lambda m: m['ev'].pop(1)),
+            ('cookie line lost Secure', 'P:cookie-attrs', lambda m: m['ev'][-1]['lines'][1].__setitem__('secure', False)),
+            ('raw cookie line missing', 'P:cookie-lines', lambda m: m['ev'][-1]['lines'].pop(0)),
+            ('ASGI name not lower-case', 'P:asgi-lower', lambda m: m['ev'][-1]['rawnames'].__setitem__(0, 'X-A')),
+            ('delete Set-Cookie did not raise', 'P:setcookie-guard', lambda m: m['ev'][7].__setitem__('err', False)),
+            ('decoded location differs', 'P:decode', lambda m: m['ev'][6]['law']['dec'].pop()),
+            ('unset cookie expires in the future', 'P:unset-expired',
+             lambda m: m['ev'][-1]['lines'][2].__setitem__('exp', m['ev'][-1]['now'] + 5)),
+            ('echo reads another value', 'P:cookie-echo',
+             lambda m: m['ev'][-1].__setitem__('echo', [[k, ['zz']] for k, _ in m['ev'][-1]['echo']]))]
+    traces = []
+    for _, _, f in muts:
+        m = copy.deepcopy(t)
+        f(m)
+        traces.append(m)
+    vs = ctx.judge('RespHeadersTrace', traces, 'RespHeadersTrace.cfg', workers=2)
+    for (name, want, _), v in zip(muts, vs):
+        print('%-36s %s' % (name, v))
+        if v.split('|')[0] != want:
+            raise MachineryError('selftest: %s judged %s, expected %s' % (name, v, want))
